@@ -4,6 +4,7 @@
 // ASSUME: compare_exchange_weak never fails spuriously
 // OB: ob_simplelock_T2 tier=quick unwind=30 timeout=900 solver=cadical bounds="SimpleLock: T=2 threads x 2 acquisitions each via lock() (slow path included), 26 scheduler steps" desc="mutual exclusion, release->acquire is happens-before for a plain vfg_payload, no deadlock"
 // OB: ob_simplelock_try_T2 tier=quick unwind=30 timeout=900 solver=cadical bounds="SimpleLock: T=2, thread 0 lock(), thread 1 try_lock() loop of <=2 attempts" desc="try_lock never admits a second holder and never blocks"
+// OB: ob_simplelock_asym_T2 tier=quick unwind=36 timeout=900 solver=cadical bounds="SimpleLock: T=2, thread 0 one lock(), thread 1 three lock()s (a slow-path waiter can lose a compare-exchange and then meet a re-acquired lock), 30 scheduler steps" desc="mutual exclusion, release->acquire is happens-before, no deadlock"
 // OB: ob_simplelock_T3 tier=thorough unwind=40 timeout=3000 solver=cadical bounds="SimpleLock: T=3 x 2 acquisitions, 36 steps" desc="mutual exclusion + HB, three threads"
 #include "vf.h"
 #include "galois/substrate/SimpleLock.h"
@@ -11,6 +12,7 @@
 
 extern "C" void vf_sched_simplelock(unsigned n, unsigned steps);
 extern "C" void vf_sched_trylock(unsigned n, unsigned steps);
+extern "C" void vf_sched_asym(unsigned n, unsigned steps);
 
 namespace {
 galois::substrate::SimpleLock L;
@@ -39,6 +41,14 @@ extern "C" void vf_thread_simplelock(unsigned tid) {
   }
 }
 
+extern "C" void vf_thread_asym(unsigned tid) {
+  for (unsigned k = 0; k < (tid == 0 ? 1u : 3u); ++k) {
+    L.lock();
+    critical(tid);
+    L.unlock();
+  }
+}
+
 extern "C" void vf_thread_trylock(unsigned tid) {
   if (tid == 0) {
     L.lock();
@@ -57,6 +67,12 @@ extern "C" void vf_thread_trylock(unsigned tid) {
 OB(simplelock_T2) {
   vf_hb_register(&L);
   vf_sched_simplelock(2, 26);
+  VF_CHECKM(vfg_entries == 4, "every requester was admitted");
+  VF_CHECKM(!L.is_locked(), "lock free at the end");
+}
+OB(simplelock_asym_T2) {
+  vf_hb_register(&L);
+  vf_sched_asym(2, 30);
   VF_CHECKM(vfg_entries == 4, "every requester was admitted");
   VF_CHECKM(!L.is_locked(), "lock free at the end");
 }
